@@ -59,6 +59,10 @@ def lib_proto_native(platform: str) -> Dict[str, int]:
 
 
 # --------------------------------------------------------------------------------------- render
+def is_contig(w: int) -> bool:
+    return R.is_contiguous(w)
+
+
 def addr_pair(a: dict):
     k = a["k"]
     if k == "any":
@@ -337,13 +341,21 @@ def addr_st(draw, kmax: int = 4, groups: bool = False, members: bool = True, kin
         if draw(st.booleans()):
             base &= ~wild & ALL1
         return {"k": "wild", "b": base, "w": wild}
-    name = draw(st.sampled_from(["G1", "G2", "NET-A", "g.3", "G1", "G2", "anyconnect-pool", "any-net", "hosts"]))
+    name = draw(st.sampled_from(["G1", "G2", "NET-A", "g.3", "G1", "G2", "anyconnect-pool", "any-net", "hosts", "WEB", "DMZ-WEB"]))
     mem = []
     if members:
         for _ in range(draw(st.integers(1, 4))):
             mb = draw(base_st())
             mw = draw(wildmask_st(min(kmax, 2)))
             mem.append([mb & ~mw & ALL1, mw])
+        if mem and draw(st.integers(0, 3)) == 2:
+            # members that contain one another, the narrow one listed first or last
+            b0, w0 = mem[0]
+            if is_contig(w0) and w0 != ALL1:
+                w1 = (w0 << draw(st.integers(1, 4)) | 0xF) & ALL1 if w0 else 0xFF
+                w1 = (1 << w1.bit_length()) - 1
+                wider = [b0 & ~w1 & ALL1, w1]
+                mem.insert(draw(st.sampled_from([1, len(mem)])), wider)
     return {"k": "group", "b": 0, "w": 0, "n": name, "m": mem}
 
 
@@ -722,7 +734,18 @@ def port_focus(draw, top: dict, bottom: dict, platform: str):
     bottom[other] = top[other] = draw(st.one_of(st.none(), port_st(platform, None, False, False, False)))
     edge = st.sampled_from([1, 2, 3, 65533, 65534, 65535])
     val = st.one_of(edge, edge, st.integers(1, 65535), st.sampled_from([22, 80, 443, 1024]))
-    shape = draw(st.sampled_from(["neq", "range", "range", "lt", "gt", "eq", "full"]))
+    shape = draw(st.sampled_from(["neq", "range", "range", "lt", "gt", "eq", "full", "lists"]))
+    if shape == "lists" and platform == "ios":
+        # two lists with the same lowest and highest port and another port in between (eq or neq on both)
+        lo = draw(st.integers(1, 65000))
+        mids = draw(st.lists(st.integers(lo + 1, lo + 8), min_size=2, max_size=2, unique=True))
+        op = draw(st.sampled_from(["eq", "neq"]))
+        v1, v2 = [lo, mids[0], lo + 9], [lo, mids[1] if draw(st.booleans()) else mids[0], lo + 9]
+        p1, p2 = {"op": op, "v": v1, "nm": [-1] * 3}, {"op": op, "v": v2, "nm": [-1] * 3}
+        top[side], bottom[side] = p1, p2
+        return top, bottom
+    if shape == "lists":
+        shape = "range"
     if shape == "neq":
         ivs = R.port_set("neq", [draw(val)])
     elif shape == "range":
